@@ -381,7 +381,10 @@ pub fn run_backends(spec: &DiffSpec, tag: u64, source: impl FnMut(&View, &Cfg) -
 }
 
 pub fn gen_backends(seed: u64, run: u64) -> (DiffSpec, DiffOut) {
-    let p = gen::profile("C16");
+    let mut p = gen::profile("C16");
+    // truncate re-creates the Vec / anonymous buffer (zero above the cursor) but only remaps a file (stale bytes
+    // above the cursor stay): byte equality of the *whole* memory() is not demanded across a truncate
+    p.w[gen::W_TRUNC] = 0;
     let mut crng = Rng::derive(seed, run, 1);
     let cfg = gen::gen_cfg(&mut crng, &p);
     let n = gen::history_len(&mut crng, &p);
